@@ -332,7 +332,13 @@ def steps_vec(rng, mode):
         ("isinstance", lambda o, e: isinstance(o, Vec)), ("class_name", lambda o, e: o.__class__.__name__), ("meta", lambda o, e: o.__class__.describe()),
         ("getattr_missing", lambda o, e: o.missing), ("xs", lambda o, e: list(o.xs)), ("dir_has", lambda o, e: ("push" in dir(o), "xs" in dir(o))),
     ]
-    return safe if mode == "default" else safe + public
+    # the instance dictionary, reachable where private names are permitted (classic mode)
+    classic = [
+        ("dict_keys", lambda o, e: sorted(o.__dict__)), ("vars_keys", lambda o, e: sorted(vars(o))),
+        ("dict_set", lambda o, e: operator.setitem(o.__dict__, "label", n)), ("dict_pop", lambda o, e: o.__dict__.pop("label", "absent")),
+        ("dict_default", lambda o, e: sorted(getattr(o, "__dict__", {"no-dict": 1}))), ("dict_update", lambda o, e: vars(o).update(entered=i)),
+    ]
+    return safe if mode == "default" else safe + public + (classic if mode == "classic" else [])
 
 
 def steps_cls(rng, mode):
